@@ -386,6 +386,7 @@ func driveC04(t *testing.T, out *vEmitter) {
 func driveC05(t *testing.T, out *vEmitter) {
 	vKeys()
 	vC05Legacy(t, out)
+	vC05Discovery(t, out)
 	type behaviour struct {
 		label string
 		nonce func(this, other *vLogin, rawThis string) interface{} // nil = omit claim
@@ -408,13 +409,26 @@ func driveC05(t *testing.T, out *vEmitter) {
 		{"case-flipped", func(a, b *vLogin, raw string) interface{} { return vSwapCase(a.Nonce) }, false},
 	}
 	verifiers := map[string]bool{}
+	// provider kinds: the generic OIDC provider, and a provider of the OIDC family that overrides session validation
+	// (Microsoft Entra ID with a list of allowed tenants; its tokens carry the tenant in the issuer)
+	const entraIss = "https://login.microsoftonline.com/tenant-a/v2.0"
+	for _, kind := range []string{"oidc", "entra-id"} {
 	for _, method := range []string{"", "S256", "plain"} {
 		for _, skipNonce := range []bool{false, true} {
 			for _, perReq := range []bool{true, false} {
+				if kind == "entra-id" && (method != "S256" || !perReq) {
+					continue
+				}
+				entra := kind == "entra-id"
 				e := vNewEnv(t, vEnvCfg{oidc: true, mod: func(o *options.Options) {
 					o.Providers[0].CodeChallengeMethod = method
 					o.Providers[0].OIDCConfig.InsecureSkipNonce = skipNonce
 					o.Cookie.CSRFPerRequest = perReq
+					if entra {
+						o.Providers[0].Type = "entra-id"
+						o.Providers[0].OIDCConfig.InsecureSkipIssuerVerification = true
+						o.Providers[0].MicrosoftEntraIDConfig.AllowedTenants = []string{"tenant-a", "tenant-b"}
+					}
 				}})
 				for bi, bh := range behaviours {
 					// two overlapping logins in one browser; complete the first (per-request) or the latest
@@ -516,11 +530,14 @@ func driveC05(t *testing.T, out *vEmitter) {
 					e.idp.onToken = func(form url.Values) (int, string, string, error) {
 						presented = form.Get("code_verifier")
 						extra := map[string]interface{}{}
+						if entra {
+							extra["iss"] = entraIss
+						}
 						switch v := bh.nonce(this, other, rawNonce).(type) {
 						case nil:
 						case vJSONNull:
 							extra["nonce"] = nil
-							cl := vClaims("user@example.com", nil)
+							cl := vClaims("user@example.com", extra)
 							cl["nonce"] = nil
 							return 200, "application/json", vTokenJSON(vJWT(vKeyRSA, "RS256", cl), "at", "rt", 3600), nil
 						default:
@@ -565,6 +582,7 @@ func driveC05(t *testing.T, out *vEmitter) {
 				}
 			}
 		}
+	}
 	}
 }
 
@@ -1006,6 +1024,55 @@ func vC05Legacy(t *testing.T, out *vEmitter) {
 		if l.Method != want || (want != "") != (l.Challenge != "") || (want != "") != (verifier != "") {
 			out.Violation("pkce-nonce/challenge-missing", "the authorization request carries no code challenge although a method is configured",
 				map[string]interface{}{"code_challenge_method": c.ccm, "force_code_challenge_method": c.force, "sent_method": l.Method, "challenge_sent": l.Challenge != "", "verifier_stored": verifier != ""})
+		}
+	}
+}
+
+
+// vC05Discovery: the provider is configured through OIDC discovery, whose document advertises all, some or none
+// of the code-challenge methods.  The operator's configured method is the one used, whatever the document lists;
+// without a configured method one of the advertised ones (S256 preferred) may be chosen, never with the verifier
+// in clear under S256.
+func vC05Discovery(t *testing.T, out *vEmitter) {
+	defer func() { vTheIdP.discoveryMethods = nil }()
+	for _, adv := range [][]string{nil, {"plain"}, {"S256"}, {}, {"plain", "S256"}, {"S512", "plain"}} {
+		for _, method := range []string{"S256", "plain", ""} {
+			vTheIdP.discoveryMethods = adv
+			e := vTryNewEnv(t, vEnvCfg{oidc: true, mod: func(o *options.Options) {
+				p := &o.Providers[0]
+				p.OIDCConfig.SkipDiscovery = false
+				p.OIDCConfig.JwksURL = ""
+				p.LoginURL, p.RedeemURL = "", ""
+				p.CodeChallengeMethod = method
+			}})
+			if e == nil {
+				out.Stat("c05_discovery_rejected", 1)
+				continue
+			}
+			b := e.newBrowser("https://app.example.com")
+			l := b.start("/d")
+			ck := vCsrfCookieOf(e, l.Start)
+			if ck == nil {
+				continue
+			}
+			_, _, verifier := vCsrfRaw(e.opts.Cookie.Secret, ck.Value)
+			out.Obs("discovery-pkce", true, vL(vStrs(adv), vS(method), vS(l.Method), vBool(l.Challenge != "")))
+			out.Stat("c05_discovery_configs", 1)
+			sent := l.StartLocation + "\n" + strings.Join(l.Start.Header["Set-Cookie"], "\n")
+			if method != "" && l.Method != method {
+				out.Violation("pkce-nonce/challenge-missing", "the authorization request does not use the configured code-challenge method",
+					map[string]interface{}{"configured": method, "advertised": adv, "sent_method": l.Method})
+			}
+			if l.Method == "S256" && verifier != "" {
+				h := sha256.Sum256([]byte(verifier))
+				if l.Challenge != base64.RawURLEncoding.EncodeToString(h[:]) {
+					out.Violation("pkce-nonce/challenge-not-derived-from-verifier", "the code challenge is not derived from the verifier stored for this login", map[string]interface{}{"method": "S256", "advertised": adv})
+				}
+			}
+			if (method == "S256" || l.Method == "S256") && verifier != "" && strings.Contains(sent, verifier) {
+				out.Violation("pkce-nonce/secret-sent-to-browser", "the PKCE verifier appears in clear in something sent to the browser with S256",
+					map[string]interface{}{"configured": method, "advertised": adv, "sent_method": l.Method})
+			}
 		}
 	}
 }
